@@ -150,9 +150,21 @@ Theorem C16_f64_round_witness : f64_text 9007199254740993 = 9007199254740992%Z /
 Proof. exact f64_round_witness. Qed.
 Print Assumptions C16_f64_round_witness.
 
-(* ---------- Loki push ----------
-   Full statement (FALSE for the code): every line of a stream is stored as
-   [loki_line_spec labels l] (labels + its own time, text and structured metadata). *)
+(* ---------- Loki push ---------- *)
+(* every line of every stream is stored as [loki_line_spec labels l]: the labels + its own
+   time, text and structured metadata, nothing of the lines before it *)
+Theorem C16_fields_preserved_loki : forall labels pre l post,
+  nth_error (loki_build labels (pre ++ l :: post)) (List.length pre) = Some (loki_line_spec labels l).
+Proof. exact loki_fields. Qed.
+Print Assumptions C16_fields_preserved_loki.
+
+(* regression witness of the repaired defect: values [[t1,"one",{"trace":"T1"}],[t2,"two"]]:
+   line two is stored without trace *)
+Example C16_fixed_loki_metadata_not_carried :
+  exists e, nth_error (loki_build [(s2b "job", SStr (s2b "j"))] [loki_w1; loki_w2]) 1 = Some e /\
+            lookup (s2b "trace") e = None /\ lookup (s2b "job") e = Some (SStr (s2b "j")).
+Proof. exact loki_fixed_no_carry. Qed.
+
 Theorem C16_event_time_preserved_loki_guarded : forall x labels pre l post index dec now0 tsNow clock u v,
   plain_index index ->
   lookup k_timestamp (map_set_all (ll_meta l) []) = None ->
@@ -162,28 +174,32 @@ Theorem C16_event_time_preserved_loki_guarded : forall x labels pre l post index
 Proof. exact loki_time_guarded. Qed.
 Print Assumptions C16_event_time_preserved_loki_guarded.
 
-Theorem C16_fields_preserved_loki_guarded : forall labels pre l post,
+(* ---- PRE-FIX documentation (about [loki_build_prefix], ONE map per stream reused for every
+   line; no longer the code).  Before the fix the statement above held only under the guard
+   "no earlier line of the stream has structured metadata" and was refuted without it
+   (confirmed on the pre-fix code; the harness keeps the generator stream, a regression is
+   class loki_metadata_leak). *)
+Theorem C16_prefix_fields_preserved_loki_guarded : forall labels pre l post,
   Forall (fun l0 => ll_meta l0 = []) pre ->
-  exists e, nth_error (loki_build labels (pre ++ l :: post)) (List.length pre) = Some e /\
+  exists e, nth_error (loki_build_prefix labels (pre ++ l :: post)) (List.length pre) = Some e /\
             ev_equiv e (loki_line_spec labels l).
-Proof. exact loki_fields_guarded. Qed.
-Print Assumptions C16_fields_preserved_loki_guarded.
+Proof. exact prefix_loki_fields_guarded. Qed.
+Print Assumptions C16_prefix_fields_preserved_loki_guarded.
 
-(* the defect for all streams: metadata of a line is stored with the next line as well *)
-Theorem C16_loki_metadata_carried : forall labels pre l1 l2 post k v,
+Theorem C16_prefix_loki_metadata_carried : forall labels pre l1 l2 post k v,
   lookup k (map_set_all (ll_meta l1) []) = Some v ->
   lookup k (map_set_all (ll_meta l2) []) = None ->
   bytes_eqb k_line k = false -> bytes_eqb k_timestamp k = false ->
-  exists e, nth_error (loki_build labels (pre ++ l1 :: l2 :: post)) (S (List.length pre)) = Some e /\
+  exists e, nth_error (loki_build_prefix labels (pre ++ l1 :: l2 :: post)) (S (List.length pre)) = Some e /\
             lookup k e = Some v.
-Proof. exact loki_metadata_carried. Qed.
-Print Assumptions C16_loki_metadata_carried.
+Proof. exact prefix_loki_metadata_carried. Qed.
+Print Assumptions C16_prefix_loki_metadata_carried.
 
-Theorem C16_fields_preserved_loki_refuted : exists labels l1 l2 e k,
-  nth_error (loki_build labels [l1; l2]) 1 = Some e /\
+Theorem C16_prefix_fields_preserved_loki_refuted : exists labels l1 l2 e k,
+  nth_error (loki_build_prefix labels [l1; l2]) 1 = Some e /\
   lookup k e <> lookup k (loki_line_spec labels l2).
-Proof. exact loki_fields_refuted. Qed.
-Print Assumptions C16_fields_preserved_loki_refuted.
+Proof. exact prefix_loki_fields_refuted. Qed.
+Print Assumptions C16_prefix_fields_preserved_loki_refuted.
 
 (* ---------- OTLP logs ----------
    Full statement (FALSE for the code):
@@ -318,21 +334,38 @@ Theorem C16_event_time_preserved_prom_refuted : exists m, m < MILLI_T /\ prom_ts
 Proof. exact prom_time_refuted. Qed.
 Print Assumptions C16_event_time_preserved_prom_refuted.
 
-Theorem C16_point_preserved_otlp_metric_guarded : forall (name : list N) (tags : list tag) n d,
+(* OTLP gauge/sum points: the stored value is the value the data point carries, as_double
+   (any double) or as_int (exact below 2^53); names of word characters, ns time in range *)
+Theorem C16_point_preserved_otlp_metric : forall (name : list N) (tags : list tag) n v,
   name <> [] -> forallb is_word name = true ->
   NANO_T <= n -> n < 9223372036854775808 -> n / 1000000000 < 4294967296 ->
-  dy_exact_uint d = true ->
-  exists tg, otlp_metric_build name (map (fun kv => (fst kv, SStr (snd kv))) tags) n (MDouble d) =
-    Some {| d_name := name; d_tags := tg; d_ts := n / 1000000000; d_val := d |}.
+  mnum_exact v = true ->
+  exists tg, otlp_metric_build name (map (fun kv => (fst kv, SStr (snd kv))) tags) n v =
+    Some {| d_name := name; d_tags := tg; d_ts := n / 1000000000; d_val := mnum_dyad v |}.
 Proof. exact otlp_metric_point. Qed.
-Print Assumptions C16_point_preserved_otlp_metric_guarded.
+Print Assumptions C16_point_preserved_otlp_metric.
 
-(* 7.5 is stored as 7; an integer-valued (as_int) point is stored as 0 *)
-Theorem C16_point_preserved_otlp_metric_refuted :
-  otlp_metric_val (MDouble {| dy_num := 15; dy_den := 1 |}) <> {| dy_num := 15; dy_den := 1 |} /\
-  otlp_metric_val (MInt 42) <> dy_int 42.
-Proof. exact otlp_metric_value_refuted. Qed.
-Print Assumptions C16_point_preserved_otlp_metric_refuted.
+(* regression witnesses of the repaired defects: 7.5 stays 7.5, as_int 42 is 42 *)
+Example C16_fixed_otlp_metric_values :
+  otlp_metric_val (MDouble {| dy_num := 15; dy_den := 1 |}) = {| dy_num := 15; dy_den := 1 |} /\
+  otlp_metric_val (MInt 42) = dy_int 42 /\ otlp_metric_val (MInt (-7)) = dy_int (-7).
+Proof. exact otlp_metric_fixed_values. Qed.
+
+(* ---- PRE-FIX documentation (about [otlp_metric_val_prefix]: uint64(GetAsDouble()), then
+   float64; no longer the code).  Before the fix the value was kept only for whole
+   non-negative doubles below 2^53; 7.5 was stored as 7 and an as_int point as 0 (confirmed
+   on the pre-fix code; regressions are classes otlp_metric_value_truncated and
+   otlp_metric_int_value_zero). *)
+Theorem C16_prefix_otlp_metric_value_guarded : forall d,
+  dy_exact_uint d = true -> otlp_metric_val_prefix (MDouble d) = d.
+Proof. exact prefix_otlp_metric_val_guarded. Qed.
+Print Assumptions C16_prefix_otlp_metric_value_guarded.
+
+Theorem C16_prefix_otlp_metric_value_refuted :
+  otlp_metric_val_prefix (MDouble {| dy_num := 15; dy_den := 1 |}) <> {| dy_num := 15; dy_den := 1 |} /\
+  otlp_metric_val_prefix (MInt 42) <> dy_int 42.
+Proof. exact prefix_otlp_metric_value_refuted. Qed.
+Print Assumptions C16_prefix_otlp_metric_value_refuted.
 
 (* attribute key -> tag key is not injective for OTLP metrics ("a.b" and "a_b") *)
 Theorem C16_fields_preserved_otlp_metric_refuted : exists k1 k2, k1 <> k2 /\ sanitize k1 = sanitize k2.
@@ -350,7 +383,7 @@ Example C16_guards_satisfiable :
   exact53 (SInt 42) = true /\
   otlp_carried_ms {| o_time := 0; o_observed := 0; o_sevnum := 0; o_sevtext := []; o_body := SStr [];
                      o_attrs := []; o_dropped := 0; o_flags := 0; o_trace := []; o_span := [] |} = 0 /\
-  dy_exact_uint (dy_int 7) = true.
+  mnum_exact (MInt 42) = true /\ dy_exact_uint (dy_int 7) = true.
 Proof. exact guards_satisfiable. Qed.
 
 (* ---- tie by translation: the Gallina definitions regenerated from dateutils.go by gotrans on
